@@ -23,7 +23,7 @@ from simcore.driver import EngineBase
 from simcore.sched import install_locks, install_pools
 from simcore.world import MUTATING, O, SimWorld, snapshot
 
-VERSIONS = ["absent", 0, 1, 2, 3, 10]
+VERSIONS = ["absent", 0, 1, 2, 3, 10, "3-legacy", "10-legacy"]  # "-legacy": newer version, old layout
 NAMES = ["None", "myproject", "my project v2", "proj-1.0_(test)", "a, b", "it's \"quoted\" #1"]
 WORKSPACES = ["default", "custom", "nested", "colliding"]
 NJOBS = [0, 1, 3, 5]
@@ -35,7 +35,7 @@ class Engine(EngineBase):
         return (SPACE, 55.0) if tier == "quick" else (SPACE * 10, 900.0)
 
     def rule(self):
-        return (f"configurations enumerated by mixed radix over the run index (product of {SPACE}: 6 versions x 6 "
+        return (f"configurations enumerated by mixed radix over the run index (product of {SPACE}: 8 version/layout spellings x 6 "
                 "names x 4 workspace settings x legacy files x 4 job counts x project document); state points, "
                 "listing order and chunking drawn from the seed. both tiers walk the whole product (quick once, thorough ten times with different "
                 "seeds for state points, listing order and chunking). distinct = configuration tuples; non-trivial = a refusal or a migration was checked")
@@ -108,7 +108,9 @@ class Run:
         cfg = self.cfg
         ver = cfg["version"]
         os.makedirs(pp)
-        legacy = ver in ("absent", 0, 1)
+        legacy = ver in ("absent", 0, 1) or str(ver).endswith("-legacy")
+        if str(ver).endswith("-legacy"):
+            ver = int(str(ver).split("-")[0])
         wsname = {"default": "workspace", "custom": "data_ws", "nested": "data/ws/deep",
                   "colliding": "my_ws"}[cfg["workspace"]]
         if not legacy:
@@ -206,8 +208,8 @@ class Run:
         pp = self.world.p("proj")
         wsname, jobs = self.build(pp)
         ver = cfg["version"]
-        vnum = 0 if ver == "absent" else ver
-        legacy = vnum < 2
+        vnum = 0 if ver == "absent" else int(str(ver).split("-")[0])
+        legacy = vnum < 2 or str(ver).endswith("-legacy")
         snap0 = snapshot(pp, mtimes=True)
         trees0 = self.job_trees(os.path.join(pp, wsname))
         key = f"{ver}|{cfg['name']}|{cfg['workspace']}|{cfg['legacy_files']}|{cfg['njobs']}|{cfg['pdoc']}"
